@@ -94,6 +94,7 @@ class GenCfg:
     loner: bool = False              # an extra host thread with ONE childless operator that outlasts everything else
     p_overhang: float = 0.0          # an operator ends 1-2 us BEFORE its last child (timer glitch: not properly nested any more)
     p_nested_annotation: float = 0.0 # a child slot of an operator becomes a user annotation that wraps further operators
+    tie_sync: bool = False           # the main thread ends with one kernel per stream, all ending at the same instant, and a device sync
     pad_entries: int = 0             # that many metadata entries right after the first file entry: event ids (file positions) get large
     per_rank: Optional[Dict[int, Dict[str, Any]]] = None   # knob overrides for individual ranks (differently instrumented ranks of one job)
 
@@ -212,6 +213,10 @@ class _Sim:
                      wait_on_stream=-1, wait_on_cuda_event_record_corr_id=-1, wait_on_cuda_event_id=-1)
             # a sync row occupies the stream row in the file but is not stream work
             return end
+        return self._context_sync(tid, t, corr)
+
+    def _context_sync(self, tid: int, t: int, corr: int) -> int:
+        rng = self.rng
         wait_end = max([max(v) for v in self.launched.values()] + [t])
         end = max(t + self.adv(), wait_end)
         self.host("cuda_runtime", "cudaDeviceSynchronize", tid, t, end - t, cbid=165, correlation=corr)
@@ -223,6 +228,29 @@ class _Sim:
                       "device": 0, "context": 1}}
         self.ev.append(e)
         return end
+
+    def tie_sync(self, tid: int, t: int) -> int:
+        """One kernel per stream, all ending at the same instant, then a device synchronisation that waits for them: several
+        equally long paths lead into the end of the synchronising call."""
+        rng, cfg = self.rng, self.cfg
+        streams = list(cfg.streams)
+        rng.shuffle(streams)
+        plan = []
+        for s in streams:
+            d = self.adv()
+            start = max(t + rng.choice(cfg.kdelay), self.wait_until.get(s, 0), self.last_end.get(s, 0) + rng.choice((0, 1, 2)))
+            if start <= self.last_start.get(s, -1):
+                start = self.last_start[s] + 1
+            plan.append((s, t, d, start))
+            t += d          # back to back: top-level calls are chained by zero-weight edges, a gap would untie the paths
+        T = max(p[3] for p in plan) + rng.choice((1, 2, 5))
+        for s, t0, d, start in plan:
+            corr = self.next_corr()
+            self.host("cuda_runtime", "cudaLaunchKernel", tid, t0, d, cbid=211, correlation=corr)
+            self.dev("kernel", rng.choice(K_COMP), s, start, T - start, corr, queued=0)
+            self.last_start[s], self.last_end[s] = start, T
+            self.launched.setdefault(s, []).append(T)
+        return self._context_sync(tid, t, self.next_corr())
 
     def event_sync(self, tid: int, t: int) -> int:
         """cudaEventRecord on a stream, later cudaEventSynchronize / cudaStreamWaitEvent on it."""
@@ -345,6 +373,10 @@ class _Sim:
                 yield t
                 t = yield from self.op(tid, t, 1, HOST_OPS)   # an operator between two steps
                 t += self.adv()
+        if cfg.tie_sync:
+            yield t
+            t = self.tie_sync(tid, t)
+            t += self.adv()
         for _ in range(cfg.post_ops):
             yield t
             t = yield from self.op(tid, t, 1, HOST_OPS)
